@@ -545,8 +545,34 @@ func ParseReply(wire []byte, xid uint32) (code uint32, results []byte) {
 	return 4000, nil
 }
 
+// Admin performs the administrative pseudo-requests (runtime reconfiguration through the public API).
+func (e *Env) Admin(r *Req) *Obs {
+	switch r.Proc {
+	case "SETRO":
+		o := e.NFS.GetExportOptions()
+		o.ReadOnly = r.Cnt != 0
+		o.Squash = ""
+		if err := e.NFS.UpdateExportOptions(o); err != nil {
+			return &Obs{RPC: 3001}
+		}
+	case "SETMAXFILE":
+		o := e.NFS.GetExportOptions()
+		o.MaxFileSize = int64(r.Off)
+		o.Squash = ""
+		if err := e.NFS.UpdateExportOptions(o); err != nil {
+			return &Obs{RPC: 3001}
+		}
+	case "SETTSIZE":
+		e.NFS.UpdateTuningOptions(func(t *absnfs.TuningOptions) { t.TransferSize = int(r.Cnt) })
+	}
+	return &Obs{}
+}
+
 // Do runs one request and returns the observation.
 func (e *Env) Do(c Cred, r *Req) *Obs {
+	if strings.HasPrefix(r.Proc, "SET") && r.Proc != "SETATTR" {
+		return e.Admin(r)
+	}
 	prog, vers := uint32(ProgNFS), uint32(3)
 	if r.Proc == "MNT" {
 		prog = ProgMount
@@ -639,6 +665,12 @@ func (r *Req) Coq() string {
 		return fmt.Sprintf("(RCommit %d %d %d)", r.H, r.Off, r.Cnt)
 	case "MNT":
 		return fmt.Sprintf("(RMnt %s)", CBytes(r.Name))
+	case "SETRO":
+		return fmt.Sprintf("(RSetRO %s)", CBool(r.Cnt != 0))
+	case "SETMAXFILE":
+		return fmt.Sprintf("(RSetMaxFile %d)", r.Off)
+	case "SETTSIZE":
+		return fmt.Sprintf("(RSetTsize %d)", r.Cnt)
 	}
 	panic("nfsx: Coq: unknown proc " + r.Proc)
 }
@@ -790,7 +822,7 @@ func CoqDump(es []specfs.Entry) string {
 		if e.Kind != specfs.KFile {
 			sz = 0
 		}
-		out[i] = fmt.Sprintf("(%s, (%s, %d, %d, %d, %d, %s, %s))", CoqPath(e.Path), k, e.Perm, e.Uid, e.Gid, sz, CList(data), CBytes([]byte(e.Target)))
+		out[i] = fmt.Sprintf("(%s, (%s, %d, %d, %d, %d, %s, %s, %d))", CoqPath(e.Path), k, e.Perm, e.Uid, e.Gid, sz, CList(data), CBytes([]byte(e.Target)), e.MtimeNs)
 	}
 	return CList(out)
 }
